@@ -361,7 +361,7 @@ fn main() {
             if prop == "C20" {
                 extra["unsafe_lint"] = json!(std::env::var("VERIF_UNSAFE_LINT").unwrap_or_else(|_| "not run by this invocation".into()));
             }
-            let code = conclude(&cfg, &mut res, &plan.meta, extra);
+            let code = conclude(&cfg, &mut res, &plan.meta, extra, plan.scenario);
             std::process::exit(code);
         }
         "digests" => {
@@ -373,9 +373,36 @@ fn main() {
                 println!("{} {:016x}", i, d);
             }
         }
+        "history" => {
+            let prop = args.get(2).cloned().unwrap_or_default();
+            let cfg = cfg_from_env(&prop, &args[3..]);
+            let oracle = args.iter().position(|a| a == "--oracle").and_then(|i| args.get(i + 1)).cloned().unwrap_or_default();
+            front::install_quiet_panic_hook();
+            let plan = plan_for(&cfg);
+            std::process::exit(driver::history_child(&cfg, plan.scenario, &oracle));
+        }
         "debug-delta" => debug_delta_linearity(),
         "replay" => {
             let path = args.get(2).cloned().unwrap_or_default();
+            if let Ok(text) = std::fs::read_to_string(&path) {
+                if let Ok(v) = serde_json::from_str::<serde_json::Value>(&text) {
+                    if v["kind"].as_str() == Some("history") {
+                        let prop = v["property"].as_str().unwrap_or("").to_string();
+                        let a: Vec<String> = vec![
+                            "--tier".into(),
+                            v["tier"].as_str().unwrap_or("quick").to_string(),
+                            "--seed".into(),
+                            v["seed"].as_u64().unwrap_or(1).to_string(),
+                            "--scale".into(),
+                            v["scale"].as_f64().unwrap_or(1.0).to_string(),
+                        ];
+                        let cfg = cfg_from_env(&prop, &a);
+                        front::install_quiet_panic_hook();
+                        let plan = plan_for(&cfg);
+                        std::process::exit(driver::replay_history(&cfg, plan.scenario, &v, &path));
+                    }
+                }
+            }
             std::process::exit(driver::replay(&path));
         }
         _ => {
